@@ -1,5 +1,5 @@
 """C10 — RSA strictness: rejection obligations in every implementation + sibling agreement (DESIGN §4 C10)."""
-from .. import build, report, oblig
+from .. import build, report, oblig, irf
 from ..oblig import Ob, Call, ICall, Var, Accum, RET, ALL, NOCALL
 
 IMPLS = {
@@ -387,6 +387,39 @@ def client_keyx_padding(chk):
                       if bound[0] < sep[0] else 'the three extents disagree'), key=R)
 
 
+def muladd_quotient_estimate(chk):
+    """br_iXX_muladd_small() (one step of the long division behind decode_reduce / modpow / RSA) estimates the next quotient word from
+    the top words a0, b0 of value and modulus.  When a0 == b0 the true quotient word is all-ones *in the word size of the
+    representation* - 15, 31 or 32 bits - and the estimate must be that mask (Knuth D3; a smaller estimate is corrected by at most the
+    single add-back the code has, so a 31-bit mask in the 32-bit code leaves the result wrong).  Rule: the constant selected by
+    MUX(EQ(.., ..), C, ..) in each of the three implementations is 2^w - 1."""
+    R = 'muladd-quotient-estimate-mask'
+    n = 0
+    for w, src in ((15, 'src/int/i15_muladd.c'), (31, 'src/int/i31_muladd.c'), (32, 'src/int/i32_muladd.c')):
+        fn = 'br_i%d_muladd_small' % w
+        u = build.load_unit(src)
+        F = next((irf.Func(u, f) for f in u['functions'] if f['name'] == fn and f.get('blocks')), None)
+        if F is None:
+            raise AnalysisBroken('%s vanished' % fn)
+        cands = []
+        for c in F.calls('MUX'):
+            ctl = c['ops'][0]
+            if ctl['k'] == 'i' and F.insts[ctl['v']]['op'] == 'call' and F.insts[ctl['v']].get('callee') == 'EQ' and c['ops'][1]['k'] == 'c' and c['ops'][1]['v'] not in (0, None):
+                cands.append(c)
+        n += 1
+        inst = '%s: quotient estimate for equal top words is 2^%d - 1' % (fn, w)
+        if not cands:
+            chk.violation(R, inst, src, 'no MUX(EQ(..), constant, ..) selection found', key='%s %d none' % (R, w))
+            continue
+        v = cands[0]['ops'][1]['v'] & 0xFFFFFFFF
+        if v == (1 << w) - 1:
+            chk.ok(R, inst, F.where(cands[0]))
+        else:
+            chk.violation(R, inst, F.where(cands[0]), 'the estimate is %#x: values whose top word equals the top word of the modulus are reduced wrongly' % v,
+                          key='%s %d' % (R, w))
+    chk.floor('muladd_small implementations', n, 3)
+
+
 def run(tier):
     chk = report.Check('C10', tier,
                        'Static rejection obligations for the RSA functions of all four implementations (i15, i31, i32, i62), the shared '
@@ -421,6 +454,7 @@ def run(tier):
     pubexp_width_gate(chk)
     modpow_temporaries(chk)
     client_keyx_padding(chk)
+    muladd_quotient_estimate(chk)
     from .c11 import decode_mod_covers_source
     decode_mod_covers_source(chk)
     chk.floor("C10 obligations", len(chk.obls), 90)
